@@ -4,6 +4,7 @@ Ops:  add <now> <v> | reduce <now> | st        Obs: ok | `b:v,v,…` per visited
 -/
 import GoZero.Base.Trace
 import GoZero.C16.SpecRW
+import GoZero.C16.ModelApi
 namespace GoZero.C16
 open GoZero
 
@@ -25,16 +26,32 @@ def parseFlat (obs : List String) : Option (List Nat) :=
     pure (vs ++ acc)) (some [])
 
 def runRW (r : Report) (s : Section) : Report := Id.run do
-  let size := kvNat s.cfg "size" 1
+  let sizeI := kvInt s.cfg "size" 1
+  let size := sizeI.toNat
   let iv := kvNat s.cfg "interval" 1
-  let ign := kvNat s.cfg "ignore" 0 = 1
+  -- `iopts=` how many IgnoreCurrentBucket() options the constructor got (older traces: `ignore=0/1`)
+  let iopts := kvNat s.cfg "iopts" (kvNat s.cfg "ignore" 0)
   let t0 := kvNat s.cfg "t0" 0
-  let mut rw := RW.new size iv ign t0
   let mut log : Array (Nat × Nat) := #[]
   let mut last := t0
   let mut back := false     -- the clock has gone backwards in this section: outside the property, correspondence only
   let mut r := r
-  if size = 0 ∨ iv = 0 then return r.mismatch s.idx 0 "size>=1 interval>=1" (joinSp s.cfg)
+  -- the constructor with its panic and its option loop (`RW.newApi`, `rw_api_reduce_visits_last_intervals`)
+  let made := RW.newApi sizeI iv (List.replicate iopts RWOpt.ignoreCurrent) t0
+  if made.isNone then
+    -- `NewRollingWindow(size < 1)` panics (`tie_newRollingWindowGuard`): no window exists, outside the property
+    r := r.addCover "rw-new-panics"
+    for l in s.lines do
+      r := { r with ops := r.ops + 1 }
+      if joinSp l.obs ≠ "PANIC-new" then
+        r := r.mismatch s.idx l.idx "PANIC-new" (joinSp l.obs)
+        -- a window of size < 1 has no "last size intervals": the only conforming behaviour is to refuse
+        r := r.violation s.idx l.idx s!"struct=rw NewRollingWindow(size={sizeI}) returned a window (size < 1 must panic) op=[{joinSp l.op}] impl=[{joinSp l.obs}]"
+    return r
+  let mut rw := made.getD (RW.new size iv false t0)
+  let ign := rw.ignoreCurrent
+  r := r.addCover s!"rw-new-options-{min iopts 2}"
+  if iv = 0 then return r.mismatch s.idx 0 "interval>=1" (joinSp s.cfg)
   for l in s.lines do
     r := { r with ops := r.ops + 1 }
     match l.op with
